@@ -97,7 +97,7 @@ fn try_null_datalink(packet: &[u8]) -> Option<(IpAddr, IpAddr, u16, u16)> {
     }
 
     match family {
-        2 => extract_ipv4_info(&packet[4..]), // AF_INET
+        2 => extract_ipv4_info(&packet[4..]),  // AF_INET
         28 => extract_ipv6_info(&packet[4..]), // AF_INET6 (varies by OS)
         _ => None,
     }
